@@ -1,3 +1,74 @@
-/- Property theorems for C17 — to be filled in. -/
+/-
+  C17 — After a cancel is accepted no further task starts and the workflow ends.
+
+  Engine model (`Stab.Engine`, tied to the handlers by the Mode-A trace differential).
+  "Cancel accepted" = the durable flag `canceled` (pipeline_executions.is_canceled) is set, which only
+  `CancelWorkflowHandler`'s first commit does.  The ledger is the list of task executions.
+-/
+import Stab.Lemmas.EngineBasic
+
 namespace Stab.Props.C17
+open Stab Stab.Engine
+
+/-- The cancel flag is monotone: no operation of the engine ever clears it. -/
+theorem canceled_monotone (c : Cfg) (s : State) (op : Op) (h : s.canceled = true) :
+    (step c s op).canceled = true := by
+  cases op with
+  | deliver id => simp only [step]; split; exact h; exact deliverRow_canceled_mono c s _ _ _ h
+  | deliverNoAck id => simp only [step]; split; exact h; exact deliverRow_canceled_mono c s _ _ _ h
+  | crash id k => simp only [step]; split; exact h; exact deliverRow_canceled_mono c s _ _ _ h
+  | cancel => exact applyEff_canceled_mono _ _ h
+  | signal i p => exact applyEff_canceled_mono _ _ h
+  | sweep => exact applyTxn_canceled_mono _ _ h
+
+/-- **No task begins executing once the cancel is durable** — one step, every operation
+    (deliveries in any order, redeliveries, crashes at any commit, sweeps, signals). -/
+theorem no_exec_after_cancel_step (c : Cfg) (s : State) (op : Op) (h : s.canceled = true) :
+    (step c s op).ledger = s.ledger := by
+  cases op with
+  | deliver id => simp only [step]; split; rfl; exact deliverRow_ledger_of_canceled c s _ _ _ h
+  | deliverNoAck id => simp only [step]; split; rfl; exact deliverRow_ledger_of_canceled c s _ _ _ h
+  | crash id k => simp only [step]; split; rfl; exact deliverRow_ledger_of_canceled c s _ _ _ h
+  | cancel => simp [step]
+  | signal i p => simp [step]
+  | sweep => simp [step]
+
+/-- … and therefore along every schedule, of any length. -/
+theorem no_exec_after_cancel (c : Cfg) (s : State) (ops : List Op) (h : s.canceled = true) :
+    (ops.foldl (step c) s).ledger = s.ledger ∧ (ops.foldl (step c) s).canceled = true := by
+  induction ops generalizing s with
+  | nil => exact ⟨rfl, h⟩
+  | cons op ops ih =>
+    simp only [List.foldl]
+    have h' := canceled_monotone c s op h
+    have := ih (step c s op) h'
+    exact ⟨by rw [this.1, no_exec_after_cancel_step c s op h], this.2⟩
+
+/-- Handling `CancelWorkflow` on an unfinished workflow sets the flag and queues a `CancelStage` for
+    every stage that is not complete, plus a `CompleteWorkflow`, in its own commit. -/
+theorem cancel_fans_out (c : Cfg) (s : State) (id : Nat) (h : s.wfStatus.isComplete = false) :
+    hCancelWorkflow c s id =
+      [[.setCanceled],
+       [.mark id] ++ ((List.range c.n).filter (fun i => !(s.stage i).status.isComplete)).map (fun i => Eff.push (.cancelStage i))
+         ++ [.push (.completeWorkflow 0)]] := by
+  simp [hCancelWorkflow, h]
+
+/-- `CancelStage` drives every incomplete stage to CANCELED together with its unfinished tasks. -/
+theorem cancel_stage_cancels (c : Cfg) (s : State) (id i : Nat) (h : (s.stage i).status.isComplete = false) :
+    ∃ st', hCancelStage c s id i = [[.setStage i st', .mark id]] ∧ st'.status = .canceled ∧
+      ∀ x ∈ st'.tasks, x.status ≠ .notStarted ∧ x.status ≠ .running := by
+  refine ⟨_, by simp [hCancelStage, h]; rfl, rfl, ?_⟩
+  intro x hx
+  simp only [List.mem_map] at hx
+  obtain ⟨y, _, rfl⟩ := hx
+  split <;> simp_all
+
+-- non-vacuity: a canceled state exists and is reached by an actual run of a one-stage workflow
+def demoStage : StageCfg :=
+  { reqs := [], join := JoinType.and, threshold := 0, cont := false, failp := true, enabled := none,
+    maxj := none, tasks := [[Outcome.succ]] }
+def demoCfg : Cfg := { wfMaxj := none, stages := [demoStage] }
+
+example : (run demoCfg [Op.deliver 1, Op.cancel, Op.deliver 3]).canceled = true := by decide
+
 end Stab.Props.C17
